@@ -102,6 +102,17 @@ Theorem C10_concat_of_singles : forall body argv0 fs d rest stdin,
 Proof. exact scan_stdout. Qed.
 Print Assumptions C10_concat_of_singles.
 
+(* one directory, every entry kind anywhere in it: the scan output is the concatenation of the
+   single-file reports over exactly the entries whose resolved target is a regular file
+   (C10_enumeration_by_resolved_target), depth first, names in byte order *)
+Theorem C10_concat_of_singles_one_directory : forall body argv0 fs d ch stdin,
+  plain_arg d = true -> resolve fs d = SDir ch ->
+  (Z.of_nat (height_in ch) <= max_depth)%Z -> paths_ok_in ch d = true ->
+  stdout_of body argv0 (fst (main_run repaired fs [bs "-r"; d] stdin))
+  = concat (map (report_text body) (dfs_sorted_regular_files ch d)).
+Proof. exact scan_one_directory_stdout. Qed.
+Print Assumptions C10_concat_of_singles_one_directory.
+
 Theorem C10_single_file_run : forall body argv0 q fs p c stdin,
   plain_arg p = true -> resolve fs p = SReg c ->
   main_run q fs [p] stdin = ([Report p c], Exit 0) /\
